@@ -169,3 +169,7 @@ def run(ctx):
     # check's absolute tolerance (0.1-sized progress steps leave residues like 1e-16)
     from .C02 import r2_5
     r2_5(ctx)
+    # "starting as soon as its dependencies allow ... any position in the parent workflow": a predecessor that has started *and
+    # finished* still counts as started (C05 R5.3: gates are upward closed), otherwise the sub-project task never starts
+    from .C05 import r5_3
+    r5_3(ctx)
